@@ -190,11 +190,19 @@ def clsGet : Classes → Name → Option Cls
 /-- `find_metaclass`; `none` = UnknownClassException -/
 def findMetaclass (cs : Classes) (kind : Name) : Option Cls := clsGet cs (fold kind)
 
-/-- `define_class`; `none` = MetaModelException (name already defined, in any letter case) -/
+/-- two of the names coincide after upper-casing (what the `unames` set of `define_class` detects) -/
+def dupFold : List Name → Bool
+  | [] => false
+  | n :: r => r.any (fun m => decide (fold m = fold n)) || dupFold r
+
+/-- `define_class`; `none` = MetaModelException: the name is already defined (in any letter case), or two of the
+    attribute names coincide apart from letter case — in both cases nothing is defined -/
 def defineClass (cs : Classes) (kind : Name) (attrs : List (Name × Name)) : Option Classes :=
   match clsGet cs (fold kind) with
   | some _ => none
-  | none => some (cs ++ [(fold kind, { kind := kind, attrs := attrs, refs := [] })])
+  | none =>
+    if dupFold (attrs.map (·.1)) then none
+    else some (cs ++ [(fold kind, { kind := kind, attrs := attrs, refs := [] })])
 
 /-- any sequence of `define_class` calls; rejected ones leave the table unchanged -/
 def defineAll (cs : Classes) : List (Name × List (Name × Name)) → Classes
